@@ -248,7 +248,7 @@ def run_property(prop_id, spec, tier, seed=0, only_unit=None, keep=False, verbos
             opts = dict(query_timeout_ms=u.get('query_timeout_ms', 20000 if tier == 'quick' else 300000),
                         max_steps=u.get('max_steps', 5_000_000), max_loop=u.get('max_loop', 2000),
                         max_paths=u.get('max_paths', 200000), overrides=u.get('overrides', {}),
-                        resolve_selects=u.get('resolve_selects', False))
+                        resolve_selects=u.get('resolve_selects', False), concrete_defaults=u.get('concrete', False))
             for fx in expand_split(u.get('split')):
                 jobs.append((unit_paths[u['name']], fx, opts, u['name']))
         rnd = random.Random(seed)
@@ -284,8 +284,8 @@ def run_property(prop_id, spec, tier, seed=0, only_unit=None, keep=False, verbos
             a['solver_time'] += r['solver_time']
             for lab, c in r['checks'].items():
                 d = a['checks'].setdefault(lab, dict(discharged=0, violated=0, inconclusive=0, concrete=0))
-                for k in d:
-                    d[k] += c[k]
+                for k in c:
+                    d[k] = d.get(k, 0) + c[k]
             for lab, n in r['reached'].items():
                 a['reached'][lab] = a['reached'].get(lab, 0) + n
             for k, n in r['ended'].items():
